@@ -31,6 +31,10 @@
      EBootOk a / EBootFail a    bootstrap attempt a succeeds / fails
      EBootReply a rid payload   one whole frame arrives on bootstrap connection a
      EBootLost a                bootstrap connection a is lost
+     EResend d expect mint      _make_request_to_broker(<the broker client direct request d went to>, <the correlation id
+                                of d>, <bytes>, expect, min_timeout): the SAME id issued again, as fetch_api_versions does
+                                for its retries (client.py:812-841 encodes once, re-issues up to three times) and as the
+                                2**31 wrap of _next_id can; enabled iff direct request d exists and close() was not called
    A disabled event is a no-op without output.
 
    ORACLES.  random.shuffle is replaced by the driver with the deterministic permutation [shuf mode] (the mode is part
@@ -137,7 +141,8 @@ Inductive event :=
 | EUpdate (brokers : list (Z * Z)) (remove : bool) | EClose | EReset
 | EConnOk (i : nat) | EConnFail (i : nat) | ELost (i : nat) | EReply (i : nat) (rid : Z) (payload : list Z)
 | ETimer (t : nat)
-| EBootOk (a : nat) | EBootFail (a : nat) | EBootReply (a : nat) (rid : Z) (payload : list Z) | EBootLost (a : nat).
+| EBootOk (a : nat) | EBootFail (a : nat) | EBootReply (a : nat) (rid : Z) (payload : list Z) | EBootLost (a : nat)
+| EResend (d : nat) (expect : bool) (mint : Z).
 
 (* ---------------------------------------------------------------- setters *)
 Definition with_bcs C x := mkC (c_cfg C) x (c_clients C) (c_brokers C) (c_topics C) (c_corr C) (c_dl C) (c_wait C) (c_ops C) (c_direct C) (c_timers C) (c_boots C).
@@ -673,6 +678,20 @@ Definition step (C : cstate) (e : event) : cstate * list output :=
           end
       | _ => (C, [])
       end
+  | EResend d expect mint =>
+      match c_clients C, nth_error (c_direct C) d with
+      | Some _, Some (i, h0) =>
+          let rid := match nth_error (c_bcs C) i with
+                     | Some b => nth h0 (BrokerClient.t_dlog (BrokerClient.s_t (b_st b))) 0
+                     | None => 0 end in
+          let d' := length (c_direct C) in
+          match make_req C i rid expect mint (Direct d') with
+          | (C3, MRaised, o3) => (C3, o3 ++ [ORaised 1])                        (* DuplicateRequestError: the id is in the table *)
+          | (C3, MPending h, o3) => (with_direct C3 (c_direct C3 ++ [(i, h)]), o3)
+          | (C3, MFired h r, o3) => (with_direct C3 (c_direct C3 ++ [(i, h)]), o3 ++ [OReq d' r])
+          end
+      | _, _ => (C, [])
+      end
   end.
 
 Fixpoint run (C : cstate) (evs : list event) : cstate * list output :=
@@ -685,7 +704,7 @@ Fixpoint run (C : cstate) (evs : list event) : cstate * list output :=
 (* ------------------------------------------------------------------------------------------------
    case line:  timeout_ms dot mode corr0 <lp hosts>  then events
      1 node expect mint | 2 d | 3 kind all | 4 remove <lp node addr ..> | 5 | 6 | 7 i | 8 i | 9 i |
-     10 i rid <lp payload> | 11 t | 12 a | 13 a | 14 a rid <lp payload> | 15 a
+     10 i rid <lp payload> | 11 t | 12 a | 13 a | 14 a rid <lp payload> | 15 a | 16 d expect mint
    trace, per event:  0, armed DelayedCalls, cached topics, then the outputs sorted (stably) by actor:
      1 i addr | 2 i rid | 3 i | 4 i | 5 t kind val | 6 t | 7 a addr | 8 a rid | 9 a | 10 a |
      11 d <res> | 12 p <res> | 13 | 14 k | 15 k            res = code, and for code 1 <lp payload after the id> *)
@@ -720,6 +739,7 @@ Fixpoint parse_events (fuel : nat) (l : list Z) : option (list event) :=
                                | Some (pl, r2), Some n => k (EBootReply n rid pl) r2
                                | _, _ => None end
       | 15 :: a :: r => kn EBootLost a r
+      | 16 :: d :: ex :: mint :: r => match nat_of d with Some n => k (EResend n (negb (ex =? 0)) mint) r | None => None end
       | _ => None
       end
   end.
